@@ -332,13 +332,18 @@ def gen_args(rng, qual, tier):
         for L in (0, 1, 19, 20, 21, 32, 33, 75, 76):
             out.append((rb(L),))
         out += [(rb(20),) for _ in range(n // 4)] + [(5,), (None,), ("ab",), ([1, 2],)]
-    elif qual in ("bip85.BIP85DeterministicEntropy.hex", "bip85.BIP85DeterministicEntropy.bip39_mnemonic"):
+    elif qual in ("bip85.BIP85DeterministicEntropy.hex", "bip85.BIP85DeterministicEntropy.bip39_mnemonic", "bip85.BIP85DeterministicEntropy.pwd"):
         from btc_hd_wallet.bip85 import BIP85DeterministicEntropy
         from btc_hd_wallet.bip32 import PrvKeyNode
         objs = [BIP85DeterministicEntropy(PrvKeyNode.master_key(bytes([i]) * 32), testnet=bool(i % 2)) for i in (1, 2)]
         H = 2 ** 31
         idx = [0, 1, H - 1, H, -1, 2 ** 32, rng.randrange(0, H), rng.randrange(0, 1000)]
-        if qual.endswith("hex"):
+        if qual.endswith("pwd"):
+            for nb in (19, 20, 21, 43, 85, 86, 87, 88, 0, -1, rng.randrange(20, 87)):
+                for i in idx[: (8 if nb in (20, 86) else 3)]:
+                    out.append((rng.choice(objs), nb, i))
+            out += [(objs[0], 21, True), (objs[0], "21", 0)]
+        elif qual.endswith("hex"):
             for nb in (15, 16, 17, 32, 63, 64, 65, 0, -1, rng.randrange(16, 65)):
                 for i in idx[: (8 if nb in (16, 64) else 3)]:
                     out.append((rng.choice(objs), nb, i))
@@ -439,7 +444,7 @@ class PySemProp(BaseProp):
         args = [unj(a) for a in case["args"]]
         rec = Recorder()
         ent_log = None
-        if parts[0] == "bip85" and parts[-1] in ("hex", "bip39_mnemonic"):
+        if parts[0] == "bip85" and parts[-1] in ("hex", "bip39_mnemonic", "pwd"):
             # the external primitive entropy(path): logged, and handed to the interpreter as a table
             from btc_hd_wallet.bip85 import BIP85DeterministicEntropy as _B
             ent_log = []
